@@ -95,8 +95,16 @@ class Interp:
         self.ctx = ctx
         self.program = program
         self.start = program.get('start', 0)
+        late = []
         for name, spec in program.get('objs', {}).items():
-            ctx.objs[name] = make_obj(spec)
+            if isinstance(spec, (list, tuple)) and spec[0] in ('Borrow', 'Claim'):
+                late.append((name, spec))       # a borrow/claim context object that several blocks can enter
+            else:
+                ctx.objs[name] = make_obj(spec)
+        ctx.shares = []          # ((act, pc), context object, amounts): every borrow/claim context the scenario created
+        for name, spec in late:
+            ctx.objs[name] = getattr(ctx.objs[spec[1]], spec[0].lower())(**spec[2])
+            ctx.shares.append(((name, ()), ctx.objs[name], dict(spec[2])))
         self.scope_stack = {}     # activity -> list of (scope name, scope)
         self.children_of = {}     # scope name -> activities accepted by scope.do
         self.coros = []           # every coroutine we created, closed explicitly afterwards
@@ -311,7 +319,30 @@ class Interp:
         res = self._res(act, r)
         ctx.rec('res-acquiring', act, pc, (r, amounts, how))
         try:
-            async with getattr(res, how)(**amounts) as share:
+            cm = getattr(res, how)(**amounts)
+            ctx.shares.append(((act, pc), cm, dict(amounts)))
+            async with cm as share:
+                ctx.rec('res-held', act, pc, (r, amounts, how))
+                self.share_stack.setdefault(act, []).append(share)
+                try:
+                    await self.block(act, body, pc)
+                finally:
+                    self.share_stack[act].pop()
+                    ctx.rec('res-releasing', act, pc, (r, amounts, how))
+        finally:
+            ctx.rec('res-gone', act, pc, (r, amounts, how))
+
+    async def op_ENTER(self, act, pc, slot, body):
+        """enter the named borrow/claim context object (objs: ["Borrow"|"Claim", resources, amounts]); the same object may
+        be entered by several activities, or again after it was left"""
+        ctx = self.ctx
+        if self.share_stack is None:
+            self.share_stack = {}
+        spec = self.program['objs'][slot]
+        r, amounts, how = spec[1], spec[2], spec[0].lower()
+        ctx.rec('res-acquiring', act, pc, (r, amounts, how))
+        try:
+            async with ctx.objs[slot] as share:
                 ctx.rec('res-held', act, pc, (r, amounts, how))
                 self.share_stack.setdefault(act, []).append(share)
                 try:
